@@ -445,6 +445,7 @@ func Run(t *testing.T, bind *Binding, spec *RunSpec) (obs *model.Obs) {
 	e := &env{spec: spec, bind: bind, ctx: ctx, prog: spec.Prog, objs: map[string]any{}, ptrID: map[ptrKey]string{},
 		subs: map[string]any{}, freshN: map[string]int{}, lateDone: map[string]bool{}, hands: map[string]*simrt.Handle{}, obs: obs, names: map[string]string{}, scans: map[string]*simrt.TagScanner{}, initLookups: map[string]map[string][]string{}}
 	syslog.SetLogger(simrt.SilentLogger{})
+	simrt.FormatLogs = spec.Parallel
 
 	defer func() {
 		// the bubble ends with a deadlock panic if goroutines stay blocked
@@ -560,6 +561,10 @@ func (e *env) main(inClose, closeReturned *bool) {
 	for _, inst := range p.Instances {
 		inst := inst
 		h := &simrt.Handle{ID: inst.ID, Alias: inst.Alias, Qual: inst.Qual, Kind: inst.Kind, Ord: inst.Order, C: ctx}
+		if tt := p.TypeByName(inst.Type); inst.OrderRaw != nil && (tt.Init || tt.APS) && !spec.Parallel {
+			final := inst.Order
+			h.Ord, h.OrdFinal = *inst.OrderRaw, &final
+		}
 		var lateDefs []*sdl.Instance
 		for _, other := range p.Instances {
 			if other.Contributed && other.ContribBy == inst.ID {
@@ -1072,6 +1077,12 @@ func (e *env) main(inClose, closeReturned *bool) {
 		*inClose = true
 		a.Close()
 		*closeReturned = true
+		if spec.Parallel {
+			// shutdown is over: the application goes on using its closers
+			for _, id := range sdl.SortedKeys(e.hands) {
+				e.hands[id].Touch()
+			}
+		}
 		ctx.Log("close-return", "", "")
 	}
 
